@@ -544,7 +544,7 @@ class OpenRPC(Specification):
         method_meta = utils.get_meta(method.method)
         annotations: OpenRpcMeta = method_meta.get('openrpc_spec', {})
 
-        errors = annotations.get('errors', UNSET) or []
+        errors = list(annotations.get('errors', UNSET) or [])
         errors.extend([
             Error(code=error.code, message=error.message)
             for error in self._schema_extractor.extract_errors(method.method) or []
